@@ -144,6 +144,14 @@ impl Env {
     pub fn open_full(&self) -> RusticResult<Repository<IndexedFullStatus>> {
         self.open()?.to_indexed()
     }
+    /// the ids-only index built by the variant that compares the index with the pack listing
+    pub fn open_ids_checked(&self) -> RusticResult<Repository<IndexedIdsStatus>> {
+        self.open()?.to_indexed_ids_checked()
+    }
+    /// the full index built by the variant that compares the index with the pack listing
+    pub fn open_full_checked(&self) -> RusticResult<Repository<IndexedFullStatus>> {
+        self.open()?.to_indexed_checked()
+    }
 }
 
 /// Backup options as the harness uses them: snapshots are identified by their label, so parent
